@@ -1,6 +1,7 @@
 package main
 
 import (
+	"math/big"
 	"fmt"
 	"go/ast"
 	"go/token"
@@ -58,9 +59,14 @@ func init() {
 		mutation{"revert-also-when-joined", "chord/local_membership.go", "		if joined {\n			n.predecessor = joiner\n			return\n		}", "		if joined {\n			n.predecessor = joiner\n		}", "set-owner"},
 		mutation{"join-failure-stays-joining", "chord/local_membership.go", "	if err != nil {\n		n.state.Set(chord.Inactive)\n		return err\n	}", "	if err != nil {\n		return err\n	}", "release-on-failure"},
 	)
+	mutExtra["pack-helpers"] = [2]string{"func newNodeState(", "func packNodeState(index uint64, st chord.State) uint64 {\n	return (index << 4) | uint64(st)\n}\n\nfunc newNodeState("}
+	mutExtra["pack-helpers-index-not-advanced"] = mutExtra["pack-helpers"]
 	addSelfTests("C13",
 		mutation{"history-before-cas", "chord/node_state.go", "	if s.state.CompareAndSwap(prev, next) {\n		s.history.Store(nextIndex, nxt)", "	s.history.Store(nextIndex, nxt)\n	if s.state.CompareAndSwap(prev, next) {", "history-on-cas"},
-		mutation{"mask-three-bits", "chord/node_state.go", "	return chord.State(s.state.Load() & 0b1111)\n}", "	return chord.State(s.state.Load() & 0b111)\n}", "packing"},
+		mutation{"mask-three-bits-still-decodes-every-state", "chord/node_state.go", "	return chord.State(s.state.Load() & 0b1111)\n}", "	return chord.State(s.state.Load() & 0b111)\n}", "!packing"},
+		mutation{"mask-two-bits", "chord/node_state.go", "	return chord.State(s.state.Load() & 0b1111)\n}", "	return chord.State(s.state.Load() & 0b11)\n}", "packing"},
+		mutation{"pack-helpers", "chord/node_state.go", "	curr := s.state.Load()\n	currIndex := curr >> 4\n	prev := (currIndex << 4) | (uint64)(exp)\n	nextIndex := currIndex + 1\n	next := (nextIndex << 4) | (uint64)(nxt)", "	curr := s.state.Load()\n	currIndex := curr >> 4\n	prev := packNodeState(currIndex, exp)\n	nextIndex := currIndex + 1\n	next := packNodeState(nextIndex, nxt)", "!packing"},
+		mutation{"pack-helpers-index-not-advanced", "chord/node_state.go", "	curr := s.state.Load()\n	currIndex := curr >> 4\n	prev := (currIndex << 4) | (uint64)(exp)\n	nextIndex := currIndex + 1\n	next := (nextIndex << 4) | (uint64)(nxt)", "	curr := s.state.Load()\n	currIndex := curr >> 4\n	prev := packNodeState(currIndex, exp)\n	nextIndex := currIndex + 1\n	next := packNodeState(currIndex, nxt)", "packing"},
 		mutation{"set-stores-directly", "chord/node_state.go", "		if _, ok := s.Transition(s.Get(), val); ok {\n			break\n		}", "		s.state.Store((s.state.Load()>>4+1)<<4 | uint64(val))\n		break", "state-writers"},
 	)
 }
@@ -882,47 +888,10 @@ func runC13(c *Ctx) {
 			}
 			ok := fn == tr && len(cas) == 1 && tr.FactsAt(call).Has(func(fa *Fact) bool { return fa.Kind == FTrue && fa.Call == cas[0] })
 			c.Ob("history-on-cas", "nodeState.history.Store<-"+fn.Name, call.Pos(), ok, "a history entry is recorded only by the attempt whose CAS succeeded")
-			if ok {
-				// index stored == index encoded in the new word: next = (idx << 4) | nxt with the same idx
-				idxProv := tr.Prov(call.Args[0])
-				newWord := tr.Prov(cas[0].Args[1])
-				c.Ob("history-on-cas", "nodeState.history.Store#index-matches-word", call.Pos(), strings.Contains(newWord, "("+idxProv+"<<const:4)"), fmt.Sprintf("history index %s is the index packed into the swapped word %s", idxProv, newWord))
-				c.Ob("history-on-cas", "nodeState.history.Store#value-is-next-state", call.Pos(), tr.Prov(call.Args[1]) == "param#1" && strings.HasSuffix(newWord, "|param#1)"), "the recorded state is the one swapped in")
-			}
 		}
 	}
-	if len(cas) == 1 {
-		// expected word: (currIndex << 4) | exp where currIndex = Load() >> 4 ; next index = currIndex + 1
-		oldWord := tr.Prov(cas[0].Args[0])
-		newWord := tr.Prov(cas[0].Args[1])
-		c.Ob("packing", "Transition#expected-word", cas[0].Pos(), oldWord == "(((recv.state.Load()>>const:4)<<const:4)|param#0)", "expected word = (current index << 4) | expected state; found "+oldWord)
-		c.Ob("packing", "Transition#next-word", cas[0].Pos(), newWord == "((((recv.state.Load()>>const:4)+const:1)<<const:4)|param#1)", "next word = ((current index + 1) << 4) | next state; found "+newWord)
-	}
-	// (b) masks
-	for _, name := range []string{"Get", "Transition"} {
-		fn := chordFn(c, "nodeState", name)
-		n := 0
-		ast.Inspect(fn.Body, func(x ast.Node) bool {
-			be, ok := x.(*ast.BinaryExpr)
-			if !ok || be.Op != token.AND {
-				return true
-			}
-			n++
-			v, _ := fn.ConstVal(be.Y)
-			c.Ob("packing", "nodeState."+name+"#mask", be.Pos(), v == "15", "the state is extracted with mask 0b1111 (4 bits); found "+v)
-			return true
-		})
-		c.Floor("mask sites in nodeState."+name, n, 1)
-	}
-	ctor := c.Func("chord", "", "newNodeState")
-	for _, call := range ctor.Calls(false, func(call *ast.CallExpr) bool {
-		se, ok := call.Fun.(*ast.SelectorExpr)
-		return ok && se.Sel.Name == "Store" && ctor.FieldKey(se.X) == "chord.nodeState.state"
-	}) {
-		pv := ctor.Prov(call.Args[0])
-		c.Ob("packing", "newNodeState#initial-word", call.Pos(), pv == "((const:0<<const:4)|param#0)", "initial word = (0 << 4) | initial; found "+pv)
-	}
-	// every State constant fits in 4 bits
+	nodeStateSemantics(c)
+	// (that every State constant survives the packing is part of nodeStateSemantics)
 	sc := c.P("spec/chord").Types.Scope()
 	nconst := 0
 	var names []string
@@ -931,9 +900,6 @@ func runC13(c *Ctx) {
 			if named, ok := k.Type().(*types.Named); ok && named.Obj().Name() == "State" {
 				nconst++
 				names = append(names, nm)
-				v := k.Val().ExactString()
-				fits := len(v) <= 2 && v < "16" || len(v) == 1
-				c.Ob("packing", "chord.State."+nm+"<16", k.Pos(), fits, "state constant "+v+" must fit the 4-bit field")
 			}
 		}
 	}
@@ -1157,4 +1123,202 @@ func noReentrantLockRule(c *Ctx) {
 	}
 	c.Ob("no-reentrant-lock", "chord#calls-under-a-held-node-mutex", 0, true, fmt.Sprintf("%d method calls made under a held mutex were followed through statically resolved callees (depth 4); none re-acquires a held mutex", sites))
 	c.Floor("method calls under a held mutex (package chord)", sites, 10)
+}
+
+// nodeStateSemantics decides the packing of (history index, lifecycle state) into one word
+// by EXECUTING Transition, Get and newNodeState on a grid of words / states / CAS outcomes
+// and comparing with what the property needs - independent of how the word is laid out or
+// of whether packing lives in helpers:
+//   D(w) := Get() with the word w loaded
+//   (a) the expected word equals the loaded word exactly when D(loaded) == exp (a CAS from
+//       the expected state, nothing else); (b) the new word differs from the loaded one and
+//       decodes to nxt; (c) on success exactly one history entry (index, nxt) is recorded
+//       and a following transition records index+1; on failure none; (d) the results are
+//       (nxt, true) / (D(loaded), false); (e) the constructor's word decodes to the
+//       initial state and records it at index 0, for every State constant.
+func nodeStateSemantics(c *Ctx) {
+	tr := chordFn(c, "nodeState", "Transition")
+	get := chordFn(c, "nodeState", "Get")
+	ctor := c.Func("chord", "", "newNodeState")
+	type rec struct {
+		cas   [][2]*big.Int
+		hist  [][2]*big.Int
+		store []*big.Int
+	}
+	run := func(fn *Fn, args []Val, word *big.Int, casOK bool) (*rec, []Val, error) {
+		r := &rec{}
+		ext := func(f *Fn, call *ast.CallExpr, recv Val, a []Val) (Val, bool) {
+			se, ok := ast.Unparen(call.Fun).(*ast.SelectorExpr)
+			if !ok {
+				return nil, false
+			}
+			switch f.FieldKey(se.X) {
+			case "chord.nodeState.state":
+				switch se.Sel.Name {
+				case "Load":
+					return word, true
+				case "CompareAndSwap":
+					x, ok1 := a[0].(*big.Int)
+					y, ok2 := a[1].(*big.Int)
+					if ok1 && ok2 {
+						r.cas = append(r.cas, [2]*big.Int{x, y})
+						return casOK, true
+					}
+				case "Store":
+					if x, ok := a[0].(*big.Int); ok {
+						r.store = append(r.store, x)
+						return nilVal{}, true
+					}
+				}
+			case "chord.nodeState.history":
+				if se.Sel.Name == "Store" {
+					x, ok1 := a[0].(*big.Int)
+					y, ok2 := a[1].(*big.Int)
+					if ok1 && ok2 {
+						r.hist = append(r.hist, [2]*big.Int{x, y})
+						return nilVal{}, true
+					}
+				}
+			}
+			return nil, false
+		}
+		res, err := fn.EvalFn(args, ext)
+		return r, res, err
+	}
+	decode := func(w *big.Int) (*big.Int, error) {
+		_, res, err := run(get, nil, w, false)
+		if err != nil || len(res) != 1 {
+			return nil, fmt.Errorf("Get not evaluable: %v", err)
+		}
+		v, ok := res[0].(*big.Int)
+		if !ok {
+			return nil, fmt.Errorf("Get yields a non-integer")
+		}
+		return v, nil
+	}
+	// state constants
+	sc := c.P("spec/chord").Types.Scope()
+	var states []*big.Int
+	for _, nm := range sc.Names() {
+		if k, ok := sc.Lookup(nm).(*types.Const); ok {
+			if named, ok := k.Type().(*types.Named); ok && named.Obj().Name() == "State" {
+				if v, ok := constToVal(k.Val()).(*big.Int); ok {
+					states = append(states, v)
+				}
+			}
+		}
+	}
+	c.Floor("chord.State constants evaluated", len(states), 6)
+	// words: produced by the code itself - the constructor's word for every state, then a
+	// few transitions on from there (so the grid contains only well-formed words)
+	var words []*big.Int
+	bad := func(key, msg string) {
+		c.Ob("packing", key, tr.Decl.Pos(), false, msg)
+	}
+	for _, st := range states {
+		r, _, err := run(ctor, []Val{st}, big.NewInt(0), false)
+		if err != nil || len(r.store) != 1 {
+			c.Failf("newNodeState not evaluable (undecided): %v", err)
+		}
+		w0 := r.store[0]
+		d, err := decode(w0)
+		if err != nil {
+			c.Failf("%v (undecided)", err)
+		}
+		okInit := d.Cmp(st) == 0 && len(r.hist) == 1 && r.hist[0][0].Sign() == 0 && r.hist[0][1].Cmp(st) == 0
+		c.Ob("packing", fmt.Sprintf("newNodeState#initial-word-decodes-to-%v", st), ctor.Decl.Pos(), okInit, fmt.Sprintf("the constructor stores a word that Get() decodes to the initial state %v and records it at history index 0; word=%v decoded=%v history=%v", st, w0, d, r.hist))
+		words = append(words, w0)
+	}
+	// grow the grid by successful transitions
+	seen := map[string]bool{}
+	for _, w := range words {
+		seen[w.String()] = true
+	}
+	for gen := 0; gen < 3; gen++ {
+		var next []*big.Int
+		for _, w := range words {
+			d, _ := decode(w)
+			for _, nxt := range states[:min(3, len(states))] {
+				r, _, err := run(tr, []Val{d, nxt}, w, true)
+				if err == nil && len(r.cas) == 1 && !seen[r.cas[0][1].String()] {
+					seen[r.cas[0][1].String()] = true
+					next = append(next, r.cas[0][1])
+				}
+			}
+		}
+		words = append(words, next...)
+		if len(words) > 60 {
+			break
+		}
+	}
+	nEval, fail := 0, map[string]string{}
+	note := func(key, msg string) {
+		if _, ok := fail[key]; !ok {
+			fail[key] = msg
+		}
+	}
+	for _, w := range words {
+		d, err := decode(w)
+		if err != nil {
+			c.Failf("%v (undecided)", err)
+		}
+		for _, exp := range states {
+			for _, nxt := range states {
+				for _, casOK := range []bool{true, false} {
+					r, res, err := run(tr, []Val{exp, nxt}, w, casOK)
+					if err != nil {
+						c.Failf("nodeState.Transition not evaluable (undecided): %v", err)
+					}
+					nEval++
+					if len(r.cas) != 1 {
+						note("Transition#one-cas", fmt.Sprintf("%d CAS calls", len(r.cas)))
+						continue
+					}
+					old, nw := r.cas[0][0], r.cas[0][1]
+					if (old.Cmp(w) == 0) != (d.Cmp(exp) == 0) {
+						note("Transition#expected-word-matches-iff-state-is-expected", fmt.Sprintf("loaded word %v (state %v), exp %v: expected word %v", w, d, exp, old))
+					}
+					if nw.Cmp(w) == 0 {
+						note("Transition#new-word-differs-from-loaded", fmt.Sprintf("word %v: new word equals it (a second attempt from the same snapshot would also succeed)", w))
+					}
+					if dn, err := decode(nw); err != nil || dn.Cmp(nxt) != 0 {
+						note("Transition#new-word-decodes-to-next-state", fmt.Sprintf("word %v nxt %v: new word %v decodes to %v", w, nxt, nw, dn))
+					}
+					if casOK {
+						if len(r.hist) != 1 || r.hist[0][1].Cmp(nxt) != 0 {
+							note("Transition#success-records-one-history-entry-of-next-state", fmt.Sprintf("history writes %v", r.hist))
+						} else {
+							// the following transition records index+1
+							r2, _, err2 := run(tr, []Val{nxt, exp}, nw, true)
+							if err2 != nil || len(r2.hist) != 1 || new(big.Int).Sub(r2.hist[0][0], r.hist[0][0]).Cmp(big.NewInt(1)) != 0 {
+								note("Transition#history-index-advances-by-one", fmt.Sprintf("index %v then %v", r.hist[0][0], r2.hist))
+							}
+						}
+						okRes := len(res) == 2 && valEq(res[0], nxt) && valEq(res[1], true)
+						if !okRes {
+							note("Transition#success-result", fmt.Sprintf("returns %v", res))
+						}
+					} else {
+						if len(r.hist) != 0 {
+							note("Transition#failure-records-nothing", fmt.Sprintf("history writes %v on a failed CAS", r.hist))
+						}
+						okRes := len(res) == 2 && valEq(res[0], d) && valEq(res[1], false)
+						if !okRes {
+							note("Transition#failure-result", fmt.Sprintf("returns %v, current state is %v", res, d))
+						}
+					}
+				}
+			}
+		}
+	}
+	for _, key := range []string{"Transition#one-cas", "Transition#expected-word-matches-iff-state-is-expected", "Transition#new-word-differs-from-loaded", "Transition#new-word-decodes-to-next-state", "Transition#success-records-one-history-entry-of-next-state", "Transition#history-index-advances-by-one", "Transition#success-result", "Transition#failure-records-nothing", "Transition#failure-result"} {
+		msg, failed := fail[key]
+		rule := "packing"
+		if strings.Contains(key, "history") || strings.Contains(key, "records") {
+			rule = "history-on-cas"
+		}
+		c.Ob(rule, "nodeState."+key, tr.Decl.Pos(), !failed, fmt.Sprintf("executed on %d (word, expected, next, CAS outcome) valuations over %d words produced by the code itself; %s", nEval, len(words), msg))
+	}
+	_ = bad
+	c.Extra("nodestate_valuations", nEval)
 }
